@@ -6788,6 +6788,8 @@ ZSTD_copySequencesToSeqStoreNoBlockDelim(ZSTD_CCtx* cctx, ZSTD_sequencePosition*
     seqPos->posInSequence = endPosInSequence;
     ZSTD_memcpy(cctx->blockState.nextCBlock->rep, updatedRepcodes.rep, sizeof(repcodes_t));
 
+    /* a sequence list that overruns the source can leave less than @bytesAdjustment bytes in this block */
+    RETURN_ERROR_IF(bytesAdjustment > (size_t)(iend - ip), externalSequences_invalid, "Sequences overrun the source");
     iend -= bytesAdjustment;
     if (ip != iend) {
         /* Store any last literals */
